@@ -459,6 +459,14 @@ func (h *H) decodeStreams() {
 		"\x1b[27;5;4294967393~", "\x1b[4294967297Z", "\x1b[4294967298~", "\x1b[97;1;2147483648:4294967295u"} {
 		h.emitDec(in, "-", "csi-huge", false)
 	}
+	// math.MinInt64 as modifier / event parameter (the digits 9223372036854775808 wrap to it in the parser):
+	// Go's `pm[0]-1` and `EventType(ps)-1` wrap to MaxInt64 (Props/C09Int64.lean)
+	for _, in := range []string{"\x1b[97;9223372036854775808u", "\x1b[97;1:9223372036854775808u", "\x1b[1;9223372036854775808A",
+		"\x1b[97;9223372036854775808:9223372036854775808u", "\x1b[3;9223372036854775808~", "\x1b[97;27670116110564327424u"} {
+		h.emitDec(in, "-", "csi-minint64", false)
+	}
+	h.emitDecSeq(ansi.CSI{Final: 'u', Parameters: [][]int{{97}, {-9223372036854775808}}}, "-", "csi-minint64", false)
+	h.emitDecSeq(ansi.CSI{Final: 'u', Parameters: [][]int{{97}, {2, -9223372036854775808}}}, "-", "csi-minint64", false)
 	for _, ps := range [][][]int{{{-5}, {-3, -2}, {-1}}, {{-4294967199}}, {{97}, {-9223372036854775807}}, {{-2147483649, -1, -2147483648}},
 		{{97, 65}, {2, -7}, {-4294967231, 65}, {5}, {6}}, {{27}, {0}, {-4294967199}}} {
 		h.emitDecSeq(ansi.CSI{Final: 'u', Parameters: ps}, "-", "csi-negative-handmade", false)
